@@ -21,7 +21,7 @@ LEVEL = 'exploration'
 PRELOAD = ['frame.geometry.geometry', 'frame.netlist.netlist', 'frame.die.die', 'frame.allocation.allocation', 'ruamel.yaml', 'mc.common', 'tools.rect.satmanager', 'tools.rect.pseudobool', 'mc.dpll']
 RULE = ("single constraints: every clause (size<=3) and implication over the 6 literals of 3 variables; at-most-one groups of size 0..7 x {pairwise, "
         "chained k=3,4,5} x 4 polarity patterns (+ a repeated literal); PB inequalities with 3 terms (coefficients -3..3, 4 polarity patterns, optional "
-        "4th term repeating a variable), every bound from min-1 to max+1, operators >=,<=,>,<,=, both ROBDD constructions, an expression on the right-hand side; "
+        "4th term repeating a variable), every bound from min-1 to max+1, operators >=,<=,>,<,=, both ROBDD constructions, an expression on the right-hand side; one expression object used as the left-hand side of two inequalities; "
         "histories: all ordered pairs from a 40-constraint sub-alphabet, posted to the same manager or to earlier managers (diagram store not reset). "
         "For each case all 2^n assignments are evaluated. Non-trivial = cases whose constraint set is neither a tautology nor a contradiction; distinct by construction.")
 ASSUMPTIONS = ["a call that raises counts as 'refused' and is legal provided the manager's clause list is unchanged",
@@ -51,6 +51,8 @@ def holds(con, alpha):
         op = con[2]
         return lhs >= rhs if op == '>=' else lhs <= rhs if op == '<=' else lhs > rhs if op == '>' else \
             lhs < rhs if op == '<' else lhs == rhs
+    if kind == 'pbshared':
+        return all(holds(['pb', con[1], op, rhs, 0], alpha) for (op, rhs) in con[2])
     raise ValueError(con)
 
 
@@ -62,6 +64,11 @@ def con_vars(con):
     if con[0] == 'amo':
         return {l[0] for l in con[3]}
     vs = {t[0] for t in con[1]}
+    if con[0] == 'pbshared':
+        for (_, rhs) in con[2]:
+            if not isinstance(rhs, int):
+                vs |= {t[0] for t in rhs[1]}
+        return vs
     if not isinstance(con[3], int):
         vs |= {t[0] for t in con[3][1]}
     return vs
@@ -101,6 +108,22 @@ class Posting:
                 self.sm.quadraticencoding(ls)
             else:
                 self.sm.heuleencoding(ls, con[2])
+        elif kind == 'pbshared':
+            # ONE expression object used as the left-hand side of several inequalities (as rect.solve does with its
+            # area expressions): posting one must not change what the next one means
+            e = pb.Expr()
+            for (v, s, c) in con[1]:
+                e = e + c * self.lit((v, s))
+            for (op, rhs_) in con[2]:
+                if isinstance(rhs_, int):
+                    rhs = rhs_
+                else:
+                    rhs = pb.Expr() + rhs_[0]
+                    for (v, s, c) in rhs_[1]:
+                        rhs = rhs + c * self.lit((v, s))
+                q = (e >= rhs) if op == '>=' else (e <= rhs)
+                self.sm.pseudoboolencoding(q, bool(con[3]))
+            self.exprs.append((e, con[1]))
         else:
             e = pb.Expr()
             for (v, s, c) in con[1]:
@@ -185,7 +208,7 @@ def check_case(case, res):
     import tools.rect.pseudobool as pbm
     pbm.memory[:] = [0, 1]
     pbm.mmap.clear()
-    attrs = dict(kinds=sorted({c[0] + (':' + c[2] if c[0] == 'pb' else '') for c in case['same']}),
+    attrs = dict(kinds=sorted({c[0] + (':' + str(c[2]) if c[0] == 'pb' else '') for c in case['same']}),
                  history=len(case.get('pre', [])), n=len(case['same']))
     for con in case.get('pre', []):
         Q = Posting()
@@ -206,7 +229,7 @@ def check_case(case, res):
             if P.snapshot() != before:
                 res.violation('refused-but-changed', case, dict(attrs, exc=type(e).__name__),
                               'a refused constraint leaves the clause list unchanged', 'clauses were added')
-            res.counters['refused:' + con[0] + (':' + con[2] if con[0] == 'pb' else '')] += 1
+            res.counters['refused:' + con[0] + (':' + str(con[2]) if con[0] == 'pb' else '')] += 1
     if not uservars:
         uservars = {'a'}
         P.lit(('a', True))
@@ -314,8 +337,22 @@ def sub_alphabet(n=40):
     return a[:n]
 
 
+def shared_cases():
+    for cs in itertools.product((1, 2, 3), repeat=3):
+        terms = [[v, 1, c] for v, c in zip('abc', cs)]
+        for var in 'abc':
+            for k in (1, 2):
+                for b2 in (1, 2, 3):
+                    for cd in (0, 1):
+                        # load >= var + k   and then   load >= b2   (and the other order)
+                        yield ['pbshared', terms, [('>=', [k, [[var, 1, 1]]]), ('>=', b2)], cd]
+                        yield ['pbshared', terms, [('<=', [k + 2, [[var, 0, 2]]]), ('>=', b2)], cd]
+                        yield ['pbshared', terms, [('>=', b2), ('>=', [k, [[var, 1, 1]]])], cd]
+
+
 def shards(tier):
     out = []
+    out.append(dict(kind='shared'))
     out.append(dict(kind='clauses'))
     out.append(dict(kind='amo'))
     if tier == 'quick':
@@ -348,6 +385,10 @@ def shards(tier):
 
 def run_shard(shard, tier, res):
     k = shard['kind']
+    if k == 'shared':
+        for con in shared_cases():
+            check_case(dict(pre=[], same=[con]), res)
+        return
     if k == 'clauses':
         for con in clause_cases():
             check_case(dict(pre=[], same=[con]), res)
